@@ -88,7 +88,13 @@ def _intn(X, ins, argv):
     X.oblige('pre', n > 0, ins.get('pos', ''), label='rand.Intn.positive', text='rand.Intn panics if n <= 0')
     r = X.w.fresh('intn', I)
     X.hyp(z3.And(r >= 0, r < n))
+    # ghost log of the draws: count, last result, last range (used by the expectation contracts of C20)
+    for nm, v in (('rand_count', X.heap.get(('ghost', 'rand_count', I)) + 1), ('rand_last', r), ('rand_range', n)):
+        X.heap.set(('ghost', nm, I), v)
     return [r]
+
+
+EXT['mod:math/rand.Intn'] = lambda V: {('ghost', 'rand_count', I), ('ghost', 'rand_last', I), ('ghost', 'rand_range', I)}
 
 
 @ext('math/rand.Float64')
@@ -262,3 +268,34 @@ for _k in (BSP + 'Set', BSP + 'ClearAll'):
     EXT['mod:' + _k] = lambda V: set(_bs_keys())
 for _k in ('github.com/fredericlemoine/bitset.New', BSP + 'Clone'):
     EXT['mod:' + _k] = lambda V: set(_bs_keys()) | {('alloc', BS)}
+
+
+@ext('(*sync.WaitGroup).Add', '(*sync.WaitGroup).Done', '(*sync.WaitGroup).Wait')
+def _wg(X, ins, argv):
+    from .chans import wg_event
+    wg_event(X, ins, argv)
+    return []
+
+
+def _ghost_ints(*names):
+    return lambda V: {('ghost', n, I) for n in names}
+
+
+for _k in ('Add', 'Done', 'Wait'):
+    EXT['mod:(*sync.WaitGroup).' + _k] = _ghost_ints('wg_add', 'wg_done', 'wg_wait')
+for _k in ('RLock', 'RUnlock', 'Lock', 'Unlock'):
+    EXT['mod:(*sync.RWMutex).' + _k] = _ghost_ints('lock_RLock', 'lock_RUnlock', 'lock_Lock', 'lock_Unlock')
+    EXT['mod:(*sync.Mutex).' + _k] = _ghost_ints('lock_RLock', 'lock_RUnlock', 'lock_Lock', 'lock_Unlock')
+
+
+@ext('sync/atomic.AddInt32', 'sync/atomic.AddInt64')
+def _atomic_add(X, ins, argv):
+    from .symex import load_lvalue, store_lvalue
+    lv = argv[0]
+    if not isinstance(lv, LValue):
+        uk, e = X.w.prog.under(ins['args'][0]['type'])
+        lv = LValue('cell', (e['elem'], lv), e['elem'])
+    v = load_lvalue(X.V, X.heap, lv) + argv[1]
+    store_lvalue(X.V, X.heap, lv, v)
+    X.heap.set(('ghost', 'atomic_ops', I), X.heap.get(('ghost', 'atomic_ops', I)) + 1)
+    return [v]
